@@ -23,6 +23,10 @@ VERIF = os.path.dirname(os.path.dirname(os.path.abspath(__file__)))
 TLA_CP = "/opt/veriftools/tla/tla2tools.jar:/opt/veriftools/tla/CommunityModules-deps.jar"
 
 
+MACHINE_TROUBLE = ("fatal error: runtime: out of memory", "cannot allocate memory", "no space left on device",
+                   "too many open files", "fatal error: runtime: cannot allocate", "newosproc", "resource temporarily unavailable")
+
+
 class Infra(Exception):
     """Infrastructure problem: exit 2, never a violation."""
 
@@ -161,6 +165,14 @@ class Ctx:
         try:
             p = subprocess.run(argv, cwd=cwd or self.scratch, env=e, stdout=subprocess.PIPE,
                                stderr=subprocess.STDOUT, text=True, timeout=timeout, input=stdin)
+            if p.returncode != 0:
+                # trouble of the machine is never an observation on the code under test, whatever else the output
+                # contains (a Go OOM crash prints goroutine dumps that look like a panic of real code)
+                for pat in MACHINE_TROUBLE:
+                    if pat in p.stdout:
+                        raise Infra("driver %s died of machine trouble (%s):\n%s" % (os.path.basename(argv[0]), pat, p.stdout[-1500:]))
+                if p.returncode in (-9, 137):
+                    raise Infra("driver %s was killed (rc %s)" % (os.path.basename(argv[0]), p.returncode))
             return p.returncode, p.stdout
         except subprocess.TimeoutExpired as ex:
             out = ex.stdout or ""
@@ -280,10 +292,18 @@ class Ctx:
                      label="trace:" + os.path.basename(trace_path))
         if r.timeout:
             raise Infra("trace validation timed out: %s" % trace_path)
-        m = re.findall(r'TRACE-HWM",? (\d+),? (\d+)', r.out)
+        m = re.findall(r'TRACE-HWM",? (-?\d+),? (\d+)', r.out)
         if not m:
             raise Infra("trace spec did not report a high-water mark (TLC error?):\n" + r.out[-3000:])
         hwm, ln = int(m[-1][0]), int(m[-1][1])
+        if r.invariant is not None:
+            # an invariant / action property failed on a state of the recorded trace: TLC stops, and the register read
+            # by the POSTCONDITION is not the workers' one (it prints -1). The position is in the counterexample: the
+            # violating state was reached by consuming line l-1 (1-based), i.e. event index l-2 (0-based).
+            ls = re.findall(r'^/\\ l = (\d+)', r.out, re.M)
+            hwm = max(0, int(ls[-1]) - 2) if ls else 0
+        elif hwm < 0:
+            raise Infra("trace spec reported no progress at all (TLC error before the first event?):\n" + r.out[-3000:])
         accepted = (hwm == ln) and r.invariant is None and r.error is None and r.rc == 0
         if r.error and "TRACE-HWM" in r.out and hwm == ln and "Postcondition" not in r.out and r.invariant is None:
             # evaluation errors inside the spec are infrastructure trouble, not a rejection
